@@ -253,7 +253,7 @@ def run_unit(unit: Unit, repo: str = REPO, probe: bool = True, tag: str = '', _d
         # L3 shape / signature contracts: a type error located in such a chunk IS the decision
         if hasattr(unit, 'front_end_failures'):
             ffs = unit.front_end_failures(out, vr, text)
-            if ffs and hasattr(unit, 'exclude') and _depth < 4:
+            if ffs and hasattr(unit, 'exclude') and _depth < 4 and ({f.obligation for f in ffs} - set(unit.exclude)):
                 # the remaining obligations of this file are still undecided: drop the disagreeing
                 # contract chunks and verify the rest
                 unit.exclude |= {f.obligation for f in ffs}
@@ -271,6 +271,38 @@ def run_unit(unit: Unit, repo: str = REPO, probe: bool = True, tag: str = '', _d
                 return ur
         msgs = [d.message for d in vr.other_errors()][:4] or [vr.stderr[-400:]]
         ur.reason = 'Verus could not process the extracted text (type error / unsupported construct): ' + ' | '.join(msgs)
+        # The contract clauses of the functions Verus could not process are UNDECIDED (never a verdict by themselves):
+        # the check may still decide them by replaying a failing input on the real code (see check.py, undecided rule).
+        try:
+            tl = text.split('\n')
+            und = []
+            seen = set()
+            any_fn = False
+            for d in vr.other_errors():
+                infos = [_span_info(out, tl, sp, os.path.basename(vr.path)) for sp in d.spans]
+                fids = {i['fn'] for i in infos if i and i.get('fn')}
+                exits = [{'file': i['file'], 'line': i['line'], 'text': i['text'], 'what': i.get('span_label')}
+                         for i in infos if i and i['kind'] == 'code']
+                for fid in fids:
+                    any_fn = True
+                    for ob in ur.obligations:
+                        if ob.startswith(fid + '#') and not ob.endswith('#proof-hint') and ob not in seen:
+                            seen.add(ob)
+                            fl = Failure(unit.name, ob, 'not verifiable: ' + d.message.split(' (note')[0], exits, d.rendered)
+                            fl.props = unit.props_of_failure(fl)
+                            und.append(fl)
+            if not any_fn:
+                # the error is not inside a function under contract (a new type, a changed import ..): every clause of the unit is undecided
+                d0 = (vr.other_errors() or [None])[0]
+                for ob in ur.obligations:
+                    if not ob.endswith('#proof-hint'):
+                        fl = Failure(unit.name, ob, 'not verifiable: ' + (d0.message.split(' (note')[0] if d0 else 'front-end failure'), [], d0.rendered if d0 else '')
+                        fl.props = unit.props_of_failure(fl)
+                        und.append(fl)
+            if und:
+                ur.undecided_failures = und
+        except Exception:
+            pass
         ur.wall_s = time.time() - t0
         return ur
     if vr.rlimit_diags():
